@@ -306,8 +306,12 @@ func checkSet(routes, methods []string, orders [][]int, paths []string, reqMetho
 				}
 				continue
 			}
-			a := rt.match(p, false)
-			b := rt.match(p, true)
+			pd := p
+			if d, ok := decodedPath[p]; ok {
+				pd = d // the router works on the decoded path
+			}
+			a := rt.match(pd, false)
+			b := rt.match(pd, true)
 			if a.backtracks > 0 || a.decisions > 0 {
 				st.nontrivial++
 			}
@@ -517,7 +521,16 @@ func genPattern(t *rapid.T) string {
 	return sb.String()
 }
 
-var fillValues = []string{"a", "b", "ab", "abc", "users", "user", "u", "v1", "x", "zz", "a:b", "9"}
+// "a+b", "k%2541", "%252F": what the router sees after the one percent-decoding of the request path
+// ("a+b", "k%41", "%2F") is the parameter value; it is not decoded a second time
+var fillValues = []string{"a", "b", "ab", "abc", "users", "user", "u", "v1", "x", "zz", "a:b", "9", "a+b", "k%2541", "%252F", "+"}
+
+// decodedPath maps a generated request path to its once-decoded form (only for paths with escapes).
+var decodedPath = map[string]string{}
+
+func decodeOnce(p string) string {
+	return strings.NewReplacer("%2541", "%41", "%252F", "%2F").Replace(p)
+}
 
 // derive request paths from the patterns.
 func derivePaths(t *rapid.T, routes []string) []string {
@@ -558,6 +571,9 @@ func derivePaths(t *rapid.T, routes []string) []string {
 			p = strings.ReplaceAll(p, "//", "/")
 			if p == "" {
 				p = "/"
+			}
+			if d := decodeOnce(p); d != p {
+				decodedPath[p] = d
 			}
 			set[p] = true
 		}
